@@ -17,6 +17,7 @@ prints, for every step, which registers' fingerprints it CHANGED or created:
 -/
 import Driver.Util
 import CtyModel.HeapOps
+import CtyModel.HeapConc
 open CtyModel CtyModel.Heap
 
 namespace HHeap
@@ -84,6 +85,7 @@ def decOp : Sexp → Option HeapOp
     | "unmark", [v] => do pure (.api (.unmark (← nat v)))
     | "mark", [v, m] => do pure (.api (.mark (← nat v) (← str m)))
     | "withMarks", [v, g] => do pure (.api (.withMarks (← nat v) (← nat g)))
+    | "withSameMarks", [v, w] => do pure (.api (.withSameMarks (← nat v) (← nat w)))
     | "opAdd", [v, w] => do pure (.api (.opAdd (← nat v) (← nat w)))
     | "opNegate", [v] => do pure (.api (.opNegate (← nat v)))
     | "opEquals", [v, w] => do pure (.api (.opEquals (← nat v) (← nat w)))
@@ -105,6 +107,8 @@ def decOp : Sexp → Option HeapOp
     | "newPathSet", [] => some (.api .newPathSet)
     | "psAdd", [g, p, h] => do pure (.api (.psAdd (← nat g) (← nat p) (← int h)))
     | "psHas", [g, p, h] => do pure (.api (.psHas (← nat g) (← nat p) (← int h)))
+    | "psAddAllSteps", [g, p, hs] => do pure (.api (.psAddAllSteps (← nat g) (← nat p) (← intL hs)))
+    | "psRemove", [g, p, h] => do pure (.api (.psRemove (← nat g) (← nat p) (← int h)))
     | "psList", [g, p] => do pure (.api (.psList (← nat g) (← natL p)))
     | "walkBegin", [v] => do pure (.api (.walkBegin (← nat v)))
     | "walkNext", [w] => do pure (.api (.walkNext (← nat w)))
@@ -192,6 +196,50 @@ def layoutStr (st : St) : String :=
     | _ => a) (r.1, [])
   " ".intercalate (r.2 ++ slices.2)
 
+/-- the step strings of a goroutine's trace (`none` = the step was not admitted / did not apply) -/
+def traceStr : St → List (Option St) → List String
+  | _, [] => []
+  | prev, some s :: r => stepStr prev s :: traceStr s r
+  | prev, none :: r => "!" :: traceStr prev r
+
+/-- split the argument list at the atoms `|` -/
+def splitBar : List Sexp → List (List Sexp)
+  | [] => [[]]
+  | .atom "|" :: r => [] :: splitBar r
+  | x :: r => match splitBar r with
+    | g :: gs => (x :: g) :: gs
+    | [] => [[x]]
+
+/-- `heap.conc <pre>* | (l <sched>*) | <prog 0>* | <prog 1>* …`: run the shared history,
+then the goroutines under the given schedule (a) in the arena instance of the generic
+interleaving semantics, (b) alone, (c) over ONE heap with the bump allocator; print
+goroutine by goroutine what (a) gives back and whether (b), (c) print the same. -/
+def conc (args : List Sexp) : Option String := do
+  let groups := splitBar args
+  let preS ← groups[0]?
+  let schedS ← groups[1]?
+  let pre ← preS.mapM decOp
+  let sched ← (match schedS with
+    | [s] => natL s
+    | _ => none)
+  let progL ← (groups.drop 2).mapM fun g => g.mapM decOp
+  let progs : Nat → List HeapOp := fun i => progL.getD i []
+  let st0 := Heap.run {} pre
+  let n := st0.mem.length
+  let c := Interleave.exec (Interleave.start (Conc.Arena.prog progs) (Conc.Arena.cells0 st0)) sched
+  let g := Conc.Global.exec n (Conc.Global.start st0 progs) sched
+  let ids := List.range progL.length
+  let arena := ids.map fun i => traceStr st0 (c.out i)
+  let solo := ids.map fun i => traceStr st0 (Conc.soloTrace n st0 (progs i))
+  let glob := ids.map fun i => traceStr st0 (g.out i)
+  let complete := ids.all fun i => (c.todo i).isEmpty && (g.todo i).isEmpty
+  let sharedSame := decide (c.mem 0 = st0) && decide (g.mem.take n = st0.mem)
+  let body := " ; ".intercalate (ids.map fun i => "T" ++ toString i ++ ":" ++ " ".intercalate (arena.getD i []))
+  pure (body ++ " | " ++ (if complete then "complete" else "INCOMPLETE") ++
+    (if arena == solo then " arena=solo" else " ARENA/SOLO-DIFFER") ++
+    (if glob == arena then " global=arena" else " GLOBAL/ARENA-DIFFER") ++
+    (if sharedSame then " shared-untouched" else " SHARED-CHANGED"))
+
 end HHeap
 
 def handleHeap : Handler := fun op args =>
@@ -200,4 +248,5 @@ def handleHeap : Handler := fun op args =>
     let ops ← args.mapM HHeap.decOp
     let st := Heap.run {} ops
     pure (" ".intercalate (HHeap.runStr {} ops ++ ["|", HHeap.layoutStr st]))
+  | "heap.conc" => HHeap.conc args
   | _ => none
